@@ -78,10 +78,14 @@ type vhListener struct {
 	next   int
 	closed int
 	before func() // runs just before Accept fails (lets the harness set the shutdown flag "concurrently")
+	onAccept func() // runs at the start of every Accept call
 }
 
 func (l *vhListener) Accept() (net.Conn, error) {
 	vndSettle() // natively: let the previous connection's goroutine finish (symbolically it already has)
+	if l.onAccept != nil {
+		l.onAccept()
+	}
 	if l.next < len(l.conns) {
 		c := l.conns[l.next]
 		l.next++
@@ -237,4 +241,47 @@ func VH_C17_shutdown() {
 	} else {
 		vndAssert(false, "the server mutex is free when Shutdown returns")
 	}
+}
+
+// VH_C17_race: the serve loop, the per-connection goroutines and a Shutdown issued from another goroutine (at a point
+// chosen by the harness: when the k-th Accept is called) are run one after the other with the executor's
+// happens-before race detection on: two accesses of server code to the same memory from different goroutines, at
+// least one a write, that the server's own synchronisation (mutex, atomics, channels) does not order are a data race
+// in some real schedule. Natively replayed with real goroutines under the Go race detector.
+func VH_C17_race() {
+	cfg := vndParam("callbacks")
+	nconn := vndParam("conns")
+	at := vndParam("at") // the Accept call (0-based) during which Shutdown is started; nconn = when Accept is about to fail
+	s := &Server{}
+	l := &vhListener{}
+	for i := 0; i < nconn; i++ {
+		l.conns = append(l.conns, &vhSrvConn{request: []byte{0, byte(i + 1), 0, 0, 0, 6, 1, 3, 0, 10, 0, 2}})
+	}
+	if cfg&1 != 0 {
+		s.OnServeFunc = func(addr net.Addr) {}
+	}
+	if cfg&2 != 0 {
+		s.OnErrorFunc = func(err error) {}
+	}
+	if cfg&4 != 0 {
+		s.OnAcceptConnFunc = func(ctx context.Context, remoteAddr net.Addr, connectionCount uint64) error { return nil }
+	}
+	if cfg&8 != 0 {
+		s.OnCloseConnFunc = func(ctx context.Context, remoteAddr net.Addr, isServerShutdown bool) {}
+	}
+	sctx := &vhSrvCtx{done: make(chan struct{})}
+	calls := 0
+	l.onAccept = func() {
+		if calls == at {
+			go s.Shutdown(sctx)
+			vndSettle()
+		}
+		calls++
+	}
+	vndRaceDetect()
+	ctx := &vhSrvCtx{done: make(chan struct{})}
+	s.Serve(ctx, l, &vhHandler{mode: 0})
+	vndSettle()
+	vndCover("raced")
+	vndRaceCheck()
 }
